@@ -25,6 +25,17 @@ def gen_case(rng):
     return case
 
 
+def designed_cases(rng):
+    """anisotropic 3-input index sets (the LAST input stays at a lower level than the others, and the other way round) with
+    scripted histories: sub-grids whose dimensions have different numbers of nodes, evaluated at partially-on-node points"""
+    base = dict(nin=3, alpha_lim=(), nout=1, domains=[(0.0, 1.0), (-1.0, 1.0), (2.0, 2.5)], norms_in=[None, None, None],
+                norms_out=[None], nsteps=0, kind='exp')
+    return [dict(base, beta_lim=(2, 2, 1), kpl=2, fseed=rng.randrange(10 ** 9), poly=True,
+                 script=[[0, 0, 0], [1, 0, 0], [0, 1, 0], [1, 1, 0], [2, 0, 0], [2, 1, 0]]),
+            dict(base, beta_lim=(1, 2, 2), kpl=2, fseed=rng.randrange(10 ** 9), poly=False,
+                 script=[[0, 0, 0], [0, 0, 1], [0, 1, 0], [0, 1, 1], [0, 0, 2], [0, 1, 2], [1, 0, 0]])]
+
+
 def run_case(ctx, res, case, lines, post):
     rng = random.Random(case['fseed'])
     nin, nout = case['nin'], case['nout']
@@ -48,7 +59,12 @@ def run_case(ctx, res, case, lines, post):
     from fractions import Fraction
     holder['polys'] = {o: [(Fraction(1), (0,) * nin)] for o in out_names}
     comp = build()
-    hist = cc.random_history(random.Random(case['fseed'] + 5), comp, case['nsteps'])
+    if case.get('script'):
+        hist = [(tuple(i[:len(case['alpha_lim'])]), tuple(i[len(case['alpha_lim']):])) for i in case['script']]
+        for a, b in hist:
+            comp.activate_index(a, b)
+    else:
+        hist = cc.random_history(random.Random(case['fseed'] + 5), comp, case['nsteps'])
     if case['poly']:
         betas = sorted({tuple(b[:nin]) for _, b in comp.active_set})
         holder['polys'] = {o: c03.draw_poly(rng, betas, case['kpl'], nin, rng.randint(2, 5)) for o in out_names}
@@ -56,6 +72,19 @@ def run_case(ctx, res, case, lines, post):
         for a, b in hist:
             comp.activate_index(a, b)
     names, pts, kinds = c05.points_for(rng, comp, 14 if ctx.quick else 28)
+    if case.get('script'):
+        # designed anisotropic cases: every proper subset of coordinates on a node, the others interior
+        import itertools as _it
+        doms_ = comp.inputs.get_domains()
+        for r in range(1, nin):
+            for S in _it.combinations(range(nin), r):
+                for _ in range(2):
+                    x = []
+                    for d, n in enumerate(names):
+                        lb, ub = map(float, doms_[n])
+                        x.append(float(rng.choice(list(comp.training_data.x_grids[n]))) if d in S
+                                 else lb + (0.13 + 0.7 * rng.random()) * (ub - lb))
+                    pts.append(x); kinds.append('partial-node')
     in_vars, out_vars = holder['in_vars'], holder['out_vars']
     allg = [list(comp.training_data.x_grids[n]) for n in names]
     widths = [float(d[1]) - float(d[0]) for d in comp.inputs.get_domains().values()]
@@ -194,10 +223,11 @@ def run(ctx: core.Ctx, only=None) -> core.Result:
                 'binary64 (observation O1) and are counted, not judged.')
     lines, post = [], []
     keys = ('nin', 'alpha_lim', 'beta_lim', 'kpl', 'nout', 'domains', 'norms_in', 'norms_out', 'nsteps', 'fseed', 'poly',
-            'kind')
-    cases = [o.get('input', o) for o in only] if only is not None else core.corpus_cases(ctx.prop) + [gen_case(ctx.rng) for _ in range(ctx.scale(14, 150))]
+            'kind', 'script')
+    cases = [o.get('input', o) for o in only] if only is not None else core.corpus_cases(ctx.prop) + designed_cases(ctx.rng) + \
+        [gen_case(ctx.rng) for _ in range(ctx.scale(14, 150))]
     for case in cases:
-        case = {k: (tuple(case[k]) if k in ('alpha_lim', 'beta_lim') else case[k]) for k in keys}
+        case = {k: (tuple(case[k]) if k in ('alpha_lim', 'beta_lim') else case.get(k)) for k in keys}
         with core.guarded(res, 'scenario-raised', case):
             run_case(ctx, res, case, lines, post)
     t = core.try_driver(['itp.snaptol 1'], res, 'Gen.snapTol')
